@@ -631,7 +631,14 @@ fn generic_consistency(c: &Converter) -> Verdict {
             );
         }
         vensure!(u.ratio.is_finite() && u.ratio > 0.0, "c16.bad-ratio", "unit #{i} has ratio {}", u.ratio);
+        // is_best_unit says what best_units lists
+        let listed = u.system.is_some_and(|s| c.best_units(u.physical_quantity, Some(s)).iter().any(|b| std::ptr::eq(&**b, u)));
+        match guard(|| c.is_best_unit(u)) {
+            Ok(b) => vensure!(b == listed, "c16.is-best-unit", "is_best_unit({u}) = {b} but best_units({}, {:?}) {} it", u.physical_quantity, u.system, if listed { "lists" } else { "does not list" }),
+            Err(p) => vbail!("c16.panic.is_best_unit", "is_best_unit({u}) panicked: {p}"),
+        }
     }
+    vensure!(c.unit_count() == c.all_units().count(), "c16.unit-count", "unit_count() = {} but all_units() yields {}", c.unit_count(), c.all_units().count());
     for q in 0..5 {
         for sys in [None, Some(System::Metric), Some(System::Imperial)] {
             let b = match guard(|| c.best_units(pq(q), sys)) {
@@ -1067,7 +1074,12 @@ fn fixed_cases(run: &mut Run) {
                 Err(e) => fail = Some(Violation::new("c16.shipped-file-unreadable", format!("units.toml does not deserialize: {e}"))),
                 Ok(uf) => match guard(|| ConverterBuilder::new().with_units_file(uf).and_then(|b| b.finish())) {
                     Ok(Ok(c)) => {
-                        if c != Converter::default() || c != Converter::bundled() {
+                        let via_builder = guard(|| Converter::builder().with_bundled_units().and_then(|b| b.finish()));
+                        if !matches!(&via_builder, Ok(Ok(b)) if *b == c) {
+                            fail = Some(Violation::new("c16.default-differs-from-shipped-file", "Converter::builder().with_bundled_units().finish() differs from the converter built from units.toml (or fails)"));
+                        } else if UnitsFile::bundled() != toml::from_str::<UnitsFile>(&text).unwrap() {
+                            fail = Some(Violation::new("c16.default-differs-from-shipped-file", "UnitsFile::bundled() differs from units.toml read through toml"));
+                        } else if c != Converter::default() || c != Converter::bundled() {
                             fail = Some(Violation::new("c16.default-differs-from-shipped-file", "Converter::default() differs from the converter built from units.toml"));
                         } else if let Err(v) = generic_consistency(&c) {
                             fail = Some(v);
